@@ -601,7 +601,18 @@ def mode_w512(p):
     c1 = mk(ma, ga); c2 = mk(ma, ga)
     for i in range(n):
         c1.steps(1); c2.steps(1)
-    return {"a_equal": sa == ra, "b_equal": sb == rb, "control_equal": state(c1) == ra and state(c2) == ra,
+    # the same two simulations stepped CONCURRENTLY from two threads (the file-scope constants are shared by all threads)
+    thr = None
+    if p.get("thread_steps"):
+        nt = p["thread_steps"]
+        a3 = mk(ma, ga); a3.steps(nt); ra3 = state(a3)
+        b3 = mk(mb, gb); b3.steps(nt); rb3 = state(b3)
+        a4 = mk(ma, ga); b4 = mk(mb, gb)
+        ths = [threading.Thread(target=lambda s_=s_: s_.steps(nt)) for s_ in (a4, b4)]
+        for t in ths: t.start()
+        for t in ths: t.join(120)
+        thr = {"a_equal": state(a4) == ra3, "b_equal": state(b4) == rb3, "steps": nt}
+    return {"threads": thr, "a_equal": sa == ra, "b_equal": sb == rb, "control_equal": state(c1) == ra and state(c2) == ra,
             "a_separate_p1": ra[1], "a_alternated_p1": sa[1]}
 
 
